@@ -2,7 +2,7 @@
    Model: theories/Buffer.v (b_eq, b_hash_key, dict_get/dict_set: CPython dict lookup by hash then ==).
    Only statements; proofs in theories/BufferSpec.v. *)
 From Coq Require Import ZArith List Bool.
-From MS Require Import PyBase Buffer Bits ByteFacts BufferAbs BufferSpec Schc BufferHeap BufferHeapSpec BufferHeapBits.
+From MS Require Import PyBase Buffer Bits ByteFacts BufferAbs BufferSpec Schc BufferHeap BufferHeapSpec BufferHeapBits SchcBytes SchcRefine MappingBytes.
 Import ListNotations.
 Open Scope Z_scope.
 
@@ -36,6 +36,16 @@ Theorem c13_hash_objects a b h ab bb : nth_error h a = Some ab -> nth_error h b 
   exists k, fst (h_hash_key a h) = Ok k /\ fst (h_hash_key b h) = Ok k /\
             extends h (snd (h_hash_key a h)) /\ extends h (snd (h_hash_key b h)).
 Proof. exact (obj_hash a b h ab bb). Qed.
+(* match-mapping lookups (SchcBytes.bfield_match: `field.value in target_values.forward`) on canonical keys and a canonical value of ANY
+   padding sides: found exactly when some key has the bits of the value *)
+Theorem c13_match_mapping_bytes pf rf fw : canon (bf_val pf) -> canon_rfd rf ->
+  br_mo rf = MO_mapping -> br_tv rf = BTVmap fw -> bf_id pf = br_id rf ->
+  bfield_match pf rf = Ok (existsb (fun kv => bits_eqb (abs (fst kv)) (abs (bf_val pf))) fw).
+Proof. exact (match_mapping_bytes pf rf fw). Qed.
+Theorem c13_match_mapping_found pf rf fw k i : canon (bf_val pf) -> canon_rfd rf ->
+  br_mo rf = MO_mapping -> br_tv rf = BTVmap fw -> bf_id pf = br_id rf ->
+  In (k, i) fw -> abs k = abs (bf_val pf) -> bfield_match pf rf = Ok true.
+Proof. exact (match_mapping_found pf rf fw k i). Qed.
 Print Assumptions c13_eq.
 Print Assumptions c13_eqb_iff.
 Print Assumptions c13_hash.
@@ -43,3 +53,5 @@ Print Assumptions c13_dict_get.
 Print Assumptions c13_dict_set.
 Print Assumptions c13_eq_objects.
 Print Assumptions c13_hash_objects.
+Print Assumptions c13_match_mapping_bytes.
+Print Assumptions c13_match_mapping_found.
